@@ -217,3 +217,27 @@ Theorem C02_from_source_bytes_to_output_any_lines its ss ns eof fs gd (data : li
     end.
 Proof. exact (source_renders_lines its ss ns eof fs gd data). Qed.
 Print Assumptions C02_from_source_bytes_to_output_any_lines.
+
+(* ---- the evaluator's fuel only decides whether it answers (Proofs/EvalMono.v): an outcome other than
+   out-of-fuel is the outcome for every larger fuel - so the chain needs no bound on the fixed eval_fuel:
+   whenever the model of EvaluateString answers, it answers what the specification says *)
+From TW Require Import EvalMono.
+
+Theorem C02_fuel_only_decides_whether cx f g en ss out r :
+  (f <= g)%nat -> eval_program cx f en ss out = r -> r <> OutOfFuel -> eval_program cx g en ss out = r.
+Proof. exact (eval_program_fuel_mono cx f g en ss out r). Qed.
+Print Assumptions C02_fuel_only_decides_whether.
+
+Theorem C02_from_source_bytes_whenever_it_answers its ss ns eof fs gd (data : list (bytes * value)) :
+  source_ok its = true -> place (spell its) 0 its = flats ss ++ [eof] -> wf_ss ss -> DensL ss ns ->
+  env_from_map gd = EnvOk [data] ->
+  forallb (fun kv : bytes * value => clean (snd kv)) data = true -> nodes_ok ns ->
+  evaluate_string cx0 (spell its) gd <> RenderOutOfFuel ->
+  match run_nodes model_call_spec fs [data] ns with
+  | TOk out SigNormal _ => evaluate_string cx0 (spell its) gd = RenderOk out
+  | TOk _ _ _ => True
+  | TFail => exists ln msg, evaluate_string cx0 (spell its) gd = RenderErr ln msg
+  | TNoFuel | TUnprintable => True
+  end.
+Proof. exact (source_renders_when_it_answers its ss ns eof fs gd data). Qed.
+Print Assumptions C02_from_source_bytes_whenever_it_answers.
